@@ -24,14 +24,42 @@ instance (reqs : Requirements) (hs : HeaderList) (signed : List Bytes) : Decidab
 /-- The model's check decides exactly that. -/
 theorem requirementsMet_iff (reqs : Requirements) (hs : HeaderList) (signed : List Bytes) :
     requirementsMet reqs (normalizeHeaders hs []) signed = true ↔ Required reqs hs signed := by
-  sorry
+  rw [requirementsMet_eq_true_iff]
+  unfold Required namesOf
+  simp only [mem_keys_normalizeHeaders]
 
 /-- Acceptance implies every mandatory header is in the signed-header list. -/
 theorem accept_implies_required {σ : Type} (H : Bytes → Bytes) (cfg : Config) (P : Provider σ) (s : σ)
     (req : Request) (r : Returned) (h : (validate H cfg P s req).out = .ok r) :
     ∃ fp ap, fromRequestParts H cfg.opts cfg.other req = .ok fp ∧ getAuthParams cfg.reqs fp.creq = .ok ap ∧
       Required cfg.reqs req.headers ap.signedHeaders := by
-  sorry
+  unfold validate at h
+  cases hfp : fromRequestParts H cfg.opts cfg.other req with
+  | err k => rw [hfp] at h; cases h
+  | panic p => rw [hfp] at h; cases h
+  | ok fp =>
+    rw [hfp] at h
+    simp only at h
+    unfold getAuthenticator at h
+    cases hgap : getAuthParams cfg.reqs fp.creq with
+    | err k => rw [hgap] at h; cases h
+    | panic p => rw [hgap] at h; cases h
+    | ok ap =>
+      refine ⟨fp, ap, rfl, hgap, ?_⟩
+      unfold getAuthParams at hgap
+      cases hex : extractAuthParams fp.creq with
+      | err k => rw [hex] at hgap; cases hgap
+      | panic p => rw [hex] at hgap; cases hgap
+      | ok ap' =>
+        rw [hex] at hgap
+        simp only at hgap
+        split at hgap
+        · rename_i hreq
+          injection hgap with hgap
+          subst hgap
+          rw [fromRequestParts_headers H cfg.opts cfg.other req fp hfp] at hreq
+          exact (requirementsMet_iff _ _ _).1 hreq
+        · cases hgap
 
 /-- A request whose extracted parameters violate the requirements is refused as a signature
 mismatch (403) — whatever its signature, key or provider, and without any provider call. -/
@@ -42,7 +70,20 @@ theorem missing_required_refused {σ : Type} (H : Bytes → Bytes) (cfg : Config
     (hviol : ¬ Required cfg.reqs req.headers ap.signedHeaders) :
     (validate H cfg P s req).out = .err .SignatureDoesNotMatch ∧ (validate H cfg P s req).calls = [] ∧
     ErrKind.SignatureDoesNotMatch.status = 403 := by
-  sorry
+  have hreq : requirementsMet cfg.reqs fp.creq.headers ap.signedHeaders = false := by
+    rw [fromRequestParts_headers H cfg.opts cfg.other req fp hfp]
+    cases hr : requirementsMet cfg.reqs (normalizeHeaders req.headers []) ap.signedHeaders
+    · rfl
+    · exact absurd ((requirementsMet_iff _ _ _).1 hr) hviol
+  have hga : getAuthenticator H cfg.reqs fp.creq = .err .SignatureDoesNotMatch := by
+    unfold getAuthenticator getAuthParams
+    rw [hap]
+    simp [hreq]
+  unfold validate
+  rw [hfp]
+  simp only
+  rw [hga]
+  exact ⟨rfl, rfl, rfl⟩
 
 /-- Declared names match case-insensitively: only the lower-cased sets of declared names matter,
 not their letter case, order or multiplicity. -/
@@ -51,20 +92,51 @@ theorem requirements_case_insensitive (r r' : Requirements) (hdrs : HeaderMap) (
     (hi : ∀ x, x ∈ r.ifInRequest.map asciiLower ↔ x ∈ r'.ifInRequest.map asciiLower)
     (hp : ∀ x, x ∈ r.prefixes.map asciiLower ↔ x ∈ r'.prefixes.map asciiLower) :
     requirementsMet r hdrs signed = requirementsMet r' hdrs signed := by
-  sorry
+  unfold requirementsMet
+  rw [all_lower_congr r.always r'.always (fun x => signed.contains x) ha,
+    all_lower_congr r.ifInRequest r'.ifInRequest
+      (fun x => !((assocGet hdrs x).isSome) || signed.contains x) hi,
+    all_lower_congr r.prefixes r'.prefixes
+      (fun x => hdrs.all (fun kv => !(isPrefixOf x kv.1) || signed.contains kv.1)) hp]
 
 /-- The growable container: after `add h` the name is declared, after `remove h` it is not,
 whatever the history of operations before. -/
 theorem vecAdd_declares (l : List Bytes) (h : Bytes) : asciiLower h ∈ (vecAdd l h).map asciiLower := by
-  sorry
+  unfold vecAdd
+  split
+  · rename_i hany
+    simp only [List.any_eq_true, decide_eq_true_eq] at hany
+    obtain ⟨x, hx, hxe⟩ := hany
+    subst hxe
+    exact List.mem_map.2 ⟨_, hx, asciiLower_idem h⟩
+  · simp
 
 theorem vecRemove_undeclares (l : List Bytes) (h : Bytes) : asciiLower h ∉ (vecRemove l h).map asciiLower := by
-  sorry
+  unfold vecRemove
+  simp only [List.mem_map, List.mem_filter, decide_eq_true_eq, ne_eq]
+  rintro ⟨x, ⟨_, hne⟩, heq⟩
+  exact hne heq
 
 theorem vecOps_preserve_others (l : List Bytes) (h x : Bytes) (hx : asciiLower x ≠ asciiLower h) :
     (asciiLower x ∈ (vecAdd l h).map asciiLower ↔ asciiLower x ∈ l.map asciiLower) ∧
     (asciiLower x ∈ (vecRemove l h).map asciiLower ↔ asciiLower x ∈ l.map asciiLower) := by
-  sorry
+  constructor
+  · unfold vecAdd
+    split
+    · exact Iff.rfl
+    · simp only [List.map_append, List.map_cons, List.map_nil, List.mem_append, List.mem_singleton]
+      constructor
+      · rintro (h1 | h1)
+        · exact h1
+        · exact absurd h1 hx
+      · exact Or.inl
+  · unfold vecRemove
+    simp only [List.mem_map, List.mem_filter, decide_eq_true_eq, ne_eq]
+    constructor
+    · rintro ⟨y, ⟨hy, _⟩, heq⟩
+      exact ⟨y, hy, heq⟩
+    · rintro ⟨y, hy, heq⟩
+      exact ⟨y, ⟨hy, fun h' => hx (heq ▸ h')⟩, heq⟩
 
 /-- Both requirement implementations give the same verdict: a container built by any sequence of
 add/remove operations behaves like the slice container holding the same declared names. -/
@@ -73,7 +145,7 @@ theorem vec_slice_agree (ops : List ReqOp) (slice : Requirements) (hdrs : Header
     (hi : ∀ x, x ∈ (ops.foldl Requirements.apply Requirements.empty).ifInRequest.map asciiLower ↔ x ∈ slice.ifInRequest.map asciiLower)
     (hp : ∀ x, x ∈ (ops.foldl Requirements.apply Requirements.empty).prefixes.map asciiLower ↔ x ∈ slice.prefixes.map asciiLower) :
     requirementsMet (ops.foldl Requirements.apply Requirements.empty) hdrs signed = requirementsMet slice hdrs signed := by
-  sorry
+  exact requirements_case_insensitive _ _ hdrs signed ha hi hp
 
 example : Required { always := [b!"X-Amz-Target"], ifInRequest := [b!"Content-MD5"], prefixes := [b!"X-Amz-Meta-"] }
     [(b!"host", b!"h"), (b!"x-amz-meta-a", b!"1"), (b!"x-amz-target", b!"t")]
